@@ -90,6 +90,10 @@ let run (f : string list) : string =
         let seq = List.fold_left (fun acc o -> match o with Some x -> insert x acc | None -> acc) [] stored in
         String.concat " " (List.map (fun x -> hex (canon ty x)) seq)
       end
+  | ["ip4z"; a; l] ->
+      (* the stored address and prefix length of the text a.b.c.d/l; the driver refuses lengths above 32 *)
+      if int_of_string l > 32 then "E"
+      else let (x, y) = ip4p_store (n_of_dec a) (n_of_dec l) in dec_of_n x ^ " " ^ dec_of_n y
   | _ -> "?"
 
 let () = main_loop run
